@@ -360,10 +360,12 @@ func moveOutArrayDir(w *bytes.Buffer, value json.RawMessage,
 	if _, err := w.WriteString("[\n"); err != nil {
 		return err
 	}
+	// The elements of a multi-dimensional array are arrays.
+	elem := lookup.GetArray(t, -1)
 	p := syntax.StructMember{
-		Tname: t.Elem.TypeId(),
+		Tname: elem.TypeId(),
 	}
-	p.CacheIsFile(t.Elem)
+	p.CacheIsFile(elem)
 	width := util.WidthForInt(len(valueArr))
 	var errs syntax.ErrorList
 	for i, v := range valueArr {
@@ -376,7 +378,7 @@ func moveOutArrayDir(w *bytes.Buffer, value json.RawMessage,
 		p.Id = k
 		if err := moveOutFiles(w,
 			&p,
-			t.Elem.IsFile(),
+			elem.IsFile(),
 			v,
 			lookup,
 			pipestancePath,
@@ -814,10 +816,12 @@ func printOutArrayDir(w *bytes.Buffer, value json.RawMessage,
 	}
 	width := util.WidthForInt(len(valueArr))
 	newIndent := makeNewIndent(indent, width)
+	// The elements of a multi-dimensional array are arrays.
+	elem := lookup.GetArray(t, -1)
 	p := syntax.StructMember{
-		Tname: t.Elem.TypeId(),
+		Tname: elem.TypeId(),
 	}
-	p.CacheIsFile(t.Elem)
+	p.CacheIsFile(elem)
 	var errs syntax.ErrorList
 	for i, v := range valueArr {
 		if _, err := w.Write(newIndent); err != nil {
@@ -833,7 +837,7 @@ func printOutArrayDir(w *bytes.Buffer, value json.RawMessage,
 		p.Id = k
 		if err := printOutParam(w,
 			&p,
-			t.Elem.IsFile(),
+			elem.IsFile(),
 			v,
 			lookup,
 			newIndent[:1], newIndent); err != nil {
